@@ -64,6 +64,14 @@ package panos
 //vc:  ensures[C06] @vsysMarkerMeaning markerMissing == (old(markerMissing) || !strings.Contains(strings.ToLower(v.DisplayName), "netspoc"))
 //vc:  ensures[C06] @missingMarkerRecorded (old(markerMissing) ==> len(old(s.errUnmanaged)) > 0) ==> (markerMissing ==> len(s.errUnmanaged) > 0)
 
+// The closure that handles one pair (vsys on device, vsys from Netspoc): every
+// vsys that Netspoc configures is tested for the marker - also one whose
+// configuration already equals the target (the device as a whole is unmanaged
+// when one of its configured vsys lacks the marker).
+//vc:func (*State).GetChanges$1
+//vc:  inline
+//vc:  nullable v1, v2
+//vc:  ensures[C06] @everyConfiguredVsysChecked (result == nil && v1 != nil && v2 != nil && !strings.Contains(strings.ToLower(old(v1.DisplayName)), "netspoc")) ==> markerMissing
 //vc:func (*State).GetChanges
 //vc:  ensures[C09] @unmanagedErrorNotNil isnil(old(s.errUnmanaged)) && !isnil(s.errUnmanaged) ==> len(s.errUnmanaged) > 0 && s.errUnmanaged[0] != nil
 //vc:  invariant[C09] in processVsysPairs 1 "for _, v1 := range d1.Vsys" isnil(old(s.errUnmanaged)) && !isnil(s.errUnmanaged) ==> len(s.errUnmanaged) > 0 && s.errUnmanaged[0] != nil
